@@ -1,7 +1,8 @@
 (* C07 over whole runs for every step filter and stop block - property theorems only.
-   Statements: Spec/C07_Shapes_Spec.v, Spec/C07_More_Spec.v, Spec/C07_Final_Spec.v, Spec/C07_FinalUnfixed_Spec.v;
-   proofs: Proofs/C07_Shapes.v, C07_Raw.v, C07_Filters.v, C07_ChainFacts.v, C07_FiltersNum.v, C07_FinalHub.v, C07_Final.v,
-   C07_FinalRefuted.v. *)
+   Statements: Spec/C07_Shapes_Spec.v, Spec/C07_More_Spec.v, Spec/C07_Final_Spec.v, Spec/C07_FinalUnfixed_Spec.v,
+   Spec/C07_TargetUnfixed_Spec.v; proofs: Proofs/C07_Shapes.v, C07_Raw.v, C07_Filters.v, C07_ChainFacts.v, C07_FiltersNum.v,
+   C07_FiltersCursor.v, C07_FiltersTarget.v, C07_FinalHub.v, C07_Final.v, C07_FinalMem.v, C07_FinalCursor.v,
+   C07_FinalTarget.v, C07_FinalRefuted.v, C07_TargetRefuted.v. *)
 From BV Require Import Base.Prelude Model.Block Model.ForkDB Model.Forkable Model.ForkableLookups
   Model.Burst Model.Hub Model.CursorResolver Model.Joining
   Spec.Consumer Spec.Universe Check.Burst_Check Check.C07_Check Spec.C06_Spec Spec.C07_Spec Spec.C09_Spec Spec.C13_Spec
@@ -292,8 +293,8 @@ Proof.
 Qed.
 
 (* final blocks only through a target cursor: the world of c07_join_by_number_refuted (the hub becomes ready on the fork
-   13 <- 114 <- 115 while the files hold 14, 15: files_on_hub fails) with the final target cursor on block 12 meets every
-   hypothesis of c07_seamless_target_final; the join happens at 14 on the hub's forked answer, the handler sees none of it *)
+   13 <- 114 <- 115 while the files hold 14, 15) with the final target cursor on block 12 meets every hypothesis of
+   c07_seamless_target_final; the join happens at 13 with the hub on the fork, the handler sees nothing of the fork *)
 Definition ft_cu : cursor := mkCursor SIrr (mkR 12 12) (mkR 12 12) (mkR 12 12).
 Definition ft_c : jcfg := mkJ 2 5 10 2 5 (Some ft_cu) 0 1 0.
 Example c07_target_final_nonvacuous :
